@@ -4,9 +4,13 @@
 
   Proved here (decision logic of main()):  alias_from_type, explicit_mime_wins, explicit_type_wins (both files),
   alias_k, alias_j, second_file_ignores_first_file_options.
+  join_flags_independent, first_file_ignores_second_file_options.  All of them are `rfl` / `simp` / `decide` facts
+  about a small faithful model; their value is the correspondence that ties the model to main().
   NOT proved (covered only by the `cli` correspondence/monitor stream): argparse's own parsing of argv into the
   namespace, "text and exit status equal what the library produces" (the library call sequence is replayed in
-  Python and compared byte for byte, see harness/streams/cli.py).
+  Python and compared byte for byte in full-diff, -e and -d mode, with and without -f, and for a few documents as a
+  real process writing to a pipe with status output on; see harness/streams/cli.py).  -e / -d / --html / --color /
+  --format are not in the model.
 -/
 import GtModel.Model.Cli
 
@@ -71,6 +75,34 @@ theorem alias_k (a : Args) :
 theorem alias_j (a : Args) :
     printerOpts { a with condensed := true } = printerOpts { a with condensed := false, joinLists := true, joinDictItems := true } := by
   simp [printerOpts]
+
+/-- the two join flags are independent: without `-j`, `-jd` does not touch join_lists and `-jl` does not touch
+    join_dict_items (second audit: a `-jd implies -jl` change went unnoticed because neither flag was ever given alone;
+    the cli stream now gives each alone and compares the printer options and the text with the library) -/
+theorem join_flags_independent (a : Args) (b : Bool) :
+    (printerOpts { a with joinDictItems := b }).1 = (printerOpts a).1 ∧
+    (printerOpts { a with joinLists := b }).2 = (printerOpts a).2 := by
+  simp [printerOpts]
+
+example : printerOpts { joinDictItems := true } = (false, true) := rfl
+example : printerOpts { joinLists := true } = (true, false) := rfl
+
+/-- the FIRST file's parser is a function of the from-options and the first file's name only (counterpart of
+    `second_file_ignores_first_file_options`; a merged from/to lookup loop violated both on a seeded change) -/
+theorem first_file_ignores_second_file_options (a a' : Args) (gf gt gt' : Option String)
+    (h1 : a.fromMime = a'.fromMime) (h2 : a.fromType = a'.fromType) (f f' t t' : String)
+    (hp : parserFor a gf gt = .ok (f, t)) (hp' : parserFor a' gf gt' = .ok (f', t')) : f = f' := by
+  simp only [parserFor, bind, Except.bind] at hp hp'
+  rw [h1, h2] at hp
+  split at hp <;> try contradiction
+  split at hp' <;> try contradiction
+  split at hp <;> try contradiction
+  split at hp' <;> try contradiction
+  simp_all [pure, Except.pure]
+
+example := first_file_ignores_second_file_options
+  { fromType := some "json", toType := some "pickle" } { fromType := some "json", toMime := some "text/csv" }
+  none none (some "text/plain") rfl rfl "json" "json" "pickle" "csv" (by decide) (by decide)
 
 /-- `--dict-strategy auto` is the default -/
 theorem default_is_auto (a : Args) (h : a.noKeyEdits = false) :
